@@ -19,7 +19,7 @@ def main():
     end = start + 2
     while end < len(lines) and lines[end].startswith("|"):
         end += 1
-    key = lambda d: (d[:3], {"": 0, "b": 1, "c": 2, "d": 3, "e": 4, "f": 5}.get(d[3:], 9))
+    key = lambda d: (d[:3], {"": 0, "b": 1, "c": 2, "d": 3, "e": 4, "f": 5, "g": 6}.get(d[3:], 9))
     dirs = sorted((d for d in os.listdir(os.path.join(V, "seeded")) if os.path.exists(os.path.join(V, "seeded", d, "meta.json"))), key=key)
     lines[start + 2:end] = [row(d) for d in dirs]
     open(p, "w").write("\n".join(lines))
